@@ -155,6 +155,51 @@ var zones = []*time.Location{time.UTC, time.FixedZone("east", 14*3600), time.Fix
 
 // timesFor returns Go times whose tick count (for epoch delta) is tk, in several zones
 // and built two ways (time.Unix and time.Date).
+// Rounding of sub-tick time: an instant that is not a whole number of 100 ns intervals may be
+// converted by flooring, by rounding up or by rounding to nearest — but by ONE rule for every
+// instant (before and after 1970, inside and outside the int64-nanosecond range). Each entry
+// point keeps the set of rules its observations are still consistent with.
+const (
+	ruleFloor = 1 << iota
+	ruleCeil
+	ruleNearest
+)
+
+var (
+	roundMu    sync.Mutex
+	roundRules = map[string]int{}
+	roundFirst = map[string]string{}
+)
+
+func observeRounding(entry string, sub int64, up bool, what string, cs map[string]any) {
+	ok := 0
+	if !up {
+		ok |= ruleFloor
+	}
+	if up {
+		ok |= ruleCeil
+	}
+	if up == (sub >= 50) {
+		ok |= ruleNearest
+	}
+	roundMu.Lock()
+	prev, seen := roundRules[entry]
+	if !seen {
+		prev = ruleFloor | ruleCeil | ruleNearest
+		roundFirst[entry] = what
+	}
+	now := prev & ok
+	roundRules[entry] = now
+	first := roundFirst[entry]
+	if now != 0 && now != prev {
+		roundFirst[entry] = first + "; " + what
+	}
+	roundMu.Unlock()
+	if now == 0 && prev != 0 {
+		r.Violation(entry+":subtick:inconsistent-rounding", fmt.Sprintf("sub-tick instants are not converted by one rule (floor, ceiling or nearest): %s — but earlier: %s", what, first), cs)
+	}
+}
+
 func goTime(tk *big.Int, delta *big.Int, variant int) (time.Time, bool) {
 	sec, nsec, ok := refInstant(tk, delta)
 	if !ok {
@@ -266,6 +311,7 @@ func checkFILETIMETime(tk *big.Int, variant int, sub int64, boundary bool) {
 			if got.Cmp(tk) != 0 && got.Cmp(up) != 0 {
 				r.Violation("FILETIME.NewFILETIMEFromTime:subtick:"+reg, fmt.Sprintf("time %s: got ticks %s want %s or %s", fmtT(t), got, tk, up), cs)
 			}
+			observeRounding("FILETIME.NewFILETIMEFromTime", sub, got.Cmp(up) == 0, fmt.Sprintf("%s (+%d ns) -> %s", fmtRefTicks(tk, d1601), sub, got), cs)
 		}
 	})
 	nontrivial("ft.time", tk, d1601, boundary)
@@ -621,6 +667,7 @@ func checkDateTimeFromTime(tk *big.Int, variant int, sub int64, boundary bool) {
 			if got.Cmp(tk) != 0 && got.Cmp(up) != 0 {
 				r.Violation("keycredential.ConvertToBinaryTime:subtick:"+reg, fmt.Sprintf("time %s: got ticks %s want %s or %s", fmtT(t), got, tk, up), cs)
 			}
+			observeRounding("keycredential.ConvertToBinaryTime", sub, got.Cmp(up) == 0, fmt.Sprintf("%s (+%d ns) -> %s", fmtRefTicks(tk, d1601), sub, got), cs)
 			return
 		}
 		if got.Cmp(tk) != 0 {
@@ -814,6 +861,7 @@ func checkUUIDFromTime(tk *big.Int, variant int, sub int64, boundary bool) {
 		if g.Cmp(tk) != 0 && g.Cmp(up) != 0 {
 			r.Violation(entry+":subtick:"+reg, fmt.Sprintf("time %s: Time=%s want %s or %s", fmtT(t), g, tk, up), cs)
 		}
+		observeRounding(entry, sub, g.Cmp(up) == 0, fmt.Sprintf("%s (+%d ns) -> %s", fmtRefTicks(tk, d1582), sub, g), cs)
 	}
 	guard("uuid_v1.SetTime", cs, func() {
 		var a uuid_v1.UUIDv1
@@ -856,6 +904,9 @@ func familyUUID() {
 
 func main() {
 	r = mon.Start("C15", "exploration")
+	// the process's local zone is not UTC (and not a whole number of hours): code that builds or
+	// reads an instant through time.Local where UTC is meant shifts every result
+	time.Local = time.FixedZone("VERIF-0930", -(9*3600 + 30*60))
 	r.Rule("Each conversion (FILETIME, LDAP timestamp/duration, key-credential DateTime, UUID v1/v2 timestamp) in both directions on boundary values (0, +-1, both epochs, every multiple of the int64-nanosecond wrap, 2^k and 2^k-1, type extremes, sentinels) and seeded random values over the whole representable domain; Go times in four zones and two constructions. Non-trivial: a boundary value, or a value outside 1970..2100 (the only span the repository's tests touch), counted once per (conversion family, 2^48-tick bucket = 325 days); malformed decimal strings each once. State monitors (state.go): one FILETIME / UUIDv1 / UUIDv2 object reused over chains of boundary and seeded values (never-sentinel before 0), fields assigned directly and read with no call in between, caller buffers overwritten after parsing, returned slices held and re-compared, and 8 goroutines converting unrelated values through every conversion; each chain element counts once.")
 	r.Assume(
 		"math/big, strconv and the time package of the Go standard library are correct (time.Unix/Unix()/Nanosecond() are the bridge between big-integer arithmetic and time.Time)",
